@@ -113,3 +113,12 @@ Theorem c13_name_id_mapping_response_never_valid :
     valid live_table (CK k_samlp_NameIDMappingResponse) (to_tree live_table o) = false.
 Proof. exact name_id_mapping_response_invalid. Qed.
 Print Assumptions c13_name_id_mapping_response_never_valid.
+
+(* ... and with proposed_fixes/C13-1.diff (Status defaulted and passed on) it is valid for all arguments *)
+Theorem c13_name_id_mapping_response_fixed_wellformed :
+  forall entityid name_id irt status sg ob o,
+    obs_ok ob -> opt_lexb LNCName irt = true -> opt_valid k_saml_NameID name_id = true ->
+    name_id_mapping_response_fixed entityid name_id irt status sg ob = Some o ->
+    valid live_table (CK k_samlp_NameIDMappingResponse) (to_tree live_table o) = true.
+Proof. exact name_id_mapping_response_fixed_valid. Qed.
+Print Assumptions c13_name_id_mapping_response_fixed_wellformed.
